@@ -117,6 +117,9 @@ def _event_actors(draw):
                 ops.append(["is_set"])
         actors.append({"proc": draw(st.integers(0, 2)), "ops": ops})
     clears = draw(st.booleans())
+    for _ in range(draw(st.integers(0, 2))):
+        # a poller: is_set() takes and puts back the flag token; nobody may observe the event as clear meanwhile
+        actors.append({"proc": draw(st.integers(0, 2)), "ops": [["sleep", draw(st.sampled_from([1e-3, 0.3]))]] + [["is_set"]] * draw(st.integers(1, 4))})
     for _ in range(draw(st.integers(1, 2))):
         ops = []
         for _ in range(draw(st.integers(1, 3))):
@@ -348,6 +351,22 @@ def _event(case, H):
                 v.append({"kind": "event_sequential_spec", "detail": f"actor{o['actor']} {o['op']} returned {o['out'][1]} but the "
                           f"event was {'set' if flag else 'clear'} at its final locked check (step {st_})", "where": name})
                 break
+        # settled observation: nobody may still be waiting on an event that is (and stays) set
+        obs = [o for o in H.ops if o["op"][0] == "observe" and o["out"] is not None]
+        if obs and not v:
+            t_obs = obs[0]["start"]
+            flag = False
+            for st_, o in lin:
+                if st_ >= t_obs:
+                    break
+                if o["op"][0] == "set":
+                    flag = True
+                elif o["op"][0] == "clear":
+                    flag = False
+            pending_mut = [o for o in H.ops if o["op"][0] in ("set", "clear") and o["start"] < t_obs and (o["end"] is None or o["end"] >= t_obs)]
+            if flag and obs[0].get("ev_waiting") and not pending_mut:
+                v.append({"kind": "event_wait_blocked_although_set", "detail": f"after everything settled the event is set but waits "
+                          f"{obs[0]['ev_waiting']} are still blocked", "where": "observe"})
     if H.verdict == "quiescent":
         unfinished = [o for o in H.ops if o["out"] is None]
         if unfinished and not v:
@@ -432,6 +451,10 @@ def _corpus():
           {"proc": 0, "ops": [["sleep", 0.3], ["set"], ["clear"]]},
           {"proc": 0, "ops": [["sleep", LATE], ["observe"], ["set"], ["sleep", 10.0], ["is_set"]]}]
     out.append({"prim": "event", "n": 1, "actors": ev, "schedule": {"kind": "pb", "preempt": []}})
+    ev2 = [{"proc": 0, "ops": [["set"]]}, {"proc": 0, "ops": [["sleep", 0.3], ["is_set"], ["is_set"]]},
+           {"proc": 0, "ops": [["sleep", 0.3], ["ewait", None]]}, {"proc": 1, "ops": [["sleep", 0.3], ["ewait", 0.5], ["is_set"]]},
+           {"proc": 0, "ops": [["sleep", LATE], ["observe"], ["set"], ["sleep", 10.0], ["is_set"]]}]
+    out.append({"prim": "event", "n": 1, "actors": ev2, "schedule": {"kind": "pb", "preempt": []}})
     return out
 
 
